@@ -210,7 +210,7 @@ static Grid_Generator rnd_gg(Rng& r, dimension_type n, bool must_point) {
 template <class D> struct Engine {
   typedef typename D::T T;
   Counters cnt;
-  std::string name;
+  std::string name, twin_note_;
   Engine() : name(D::name()) {}
 
   // fail|class|recv|what|tags|prior flag lines|differing lines|detail
@@ -298,7 +298,8 @@ template <class D> struct Engine {
         twin.reset(); twin_age = 0;
         if (okb && (!oka || r.chance(1, 2))) { twin = std::move(b); twin_kind = kind; twin_canon = okb == 1; }
         else if (oka) { twin = std::move(a); twin_kind = "fresh"; twin_canon = oka == 1; }
-        note(twin ? D::twin_note(d) : std::string(""));
+        twin_note_ = twin ? D::twin_note(d) : std::string("");
+        note(twin_note_);
       }
       uint64_t opseed = r.next();
       phase("orig_op");
@@ -307,7 +308,7 @@ template <class D> struct Engine {
         ++cnt.lock; ++twin_age;
         phase("twin_op");
         std::string ey = apply(*twin, opseed);
-        if (ex != ey) { fail(twin_kind, "suffix_exc", "", "", "", "", ex + " vs " + ey); twin.reset(); continue; }
+        if (ex != ey) { fail(twin_kind, "suffix_exc", twin_note_, "", "", "", ex + " vs " + ey); twin.reset(); continue; }
         phase("orig_view");
         std::string dx;
         try { dx = D::lock_view(x, twin_canon); }
@@ -316,7 +317,7 @@ template <class D> struct Engine {
         std::string dy = D::lock_view(*twin, twin_canon);
         bool differs = dx != dy;
         if (differs) { phase("tiebreak"); if (D::lock_tiebreak(x, *twin)) differs = false; }
-        if (differs) { fail(twin_kind, "suffix_dump", twin_canon ? "twin_with_dead_parts" : "", "", dx, dy, first_diff(dx, dy));
+        if (differs) { fail(twin_kind, "suffix_dump", twin_canon ? "twin_with_dead_parts" : twin_note_, "", dx, dy, first_diff(dx, dy));
           if (g_verbose) { J.line("verbose x|" + esc(dx)); J.line("verbose twin|" + esc(dy)); }
           twin.reset(); continue; }
         if (r.chance(1, 2)) {
@@ -324,7 +325,7 @@ template <class D> struct Engine {
           std::string qx = safe_query(x);
           phase("twin_query");
           std::string qy = safe_query(*twin);
-          if (qx != qy) { fail(twin_kind, "suffix_query", "", "", qx, qy, first_diff(qx, qy)); twin.reset(); continue; }
+          if (qx != qy) { fail(twin_kind, "suffix_query", twin_note_, "", qx, qy, first_diff(qx, qy)); twin.reset(); continue; }
         }
       }
     }
